@@ -8,6 +8,7 @@ CONSTANTS
   MaxSend = 2
   MaxAdv = 2
   CacheMax = 16
+  Extras = {}
   Asks = {FALSE}
 INVARIANTS Attribution DialSafety Whitelist
 CHECK_DEADLOCK FALSE
